@@ -8,6 +8,7 @@ GEN = ['LexConst.v', 'ParseConst.v']
 MODEL_IS_SPEC = False
 RULE = ("structural grid: literals, queries and function calls - plain, parenthesised once and twice, negated - in every expression context (test, operand of ! && ||, comparand, function argument, nested filter); "
         "strings: single/double-edit neighbours (delete/insert/replace/duplicate/swap of a character or token from the query alphabet) of valid rendered queries, "
+        "valid queries with one character replaced by a lookalike (other Unicode blanks and decimal digits, typographic quotes and minus, full-width punctuation, other letter case), "
         "random sequences over the query alphabet, and a hand-written list of classic near-misses; membership in the RFC 9535 ABNF decided by the extracted Coq recognizer "
         "(proved sound and complete w.r.t. the transcribed grammar); a case fails if compile() accepts a string outside the grammar; "
         "the compiled structure / error class / error offset are also compared with the lexer+parser model; non-trivial = string not in the grammar; distinct = distinct strings")
@@ -41,6 +42,28 @@ CLASSICS = ["$.a-b", "$[1:2 3]", "$[?@.a==-01]", "$[?!!@.a]", "$[?(@.a)==1]", "$
             "$[?@.a == (1)]", "$[?(@.a == 1) == true]", "$[?!@.a == 1]", "$[?!(@.a) == 1]", "$[?@.a == @.b == @.c]", "$[?@.a < 1 < 2]", "$[?!!(@.a)]", "$[?! !@.a]",
             "$[?@.a == 1 &&]", "$[?|| @.a]", "$[?@.a,]", "$[?,@.a]", "$[?@.a,?]", "$[?count(@.*) == 1)]", "$[?(count(@.*) == 1]", "$[?count((@.*)) == 1]", "$[?count(@.*,) == 1]",
             "$[?count(,@.*) == 1]", "$[?count() == 1]", "$[?count(@.* @.*) == 1]", "$\n", "\n$", "$[\n]", "$.a\n", "$\t.a", "$.\ta", "$[?@.a==\"\\'\"]", "$[?@.a=='\\\"']"]
+
+
+XSPACE = "\x0b\x0c\x1c\x1d\x1e\x1f\x85\xa0\u1680\u2000\u2003\u200a\u2028\u2029\u202f\u205f\u3000\ufeff\u200b"
+
+
+def lookalike(rng, text):
+    """one character of a valid query replaced by a character other dialects or Python's str/re classes treat alike:
+    other Unicode blanks, other decimal digits, typographic quotes/minus/full-width punctuation, other letter case"""
+    pos = list(range(len(text))); rng.shuffle(pos)
+    for i in pos:
+        c = text[i]
+        if c in " \t\n\r": rep = rng.choice(XSPACE)
+        elif c.isdigit() and c.isascii(): rep = chr(rng.choice([0x660, 0xff10, 0x966, 0x6f0, 0x1d7ce]) + int(c))
+        elif c == "-": rep = rng.choice("\u2212\u2010\u2013\ufe63")
+        elif c == "'": rep = rng.choice("\u2019\u2018\u02bc\uff07")
+        elif c == '"': rep = rng.choice("\u201c\u201d\uff02")
+        elif c in ".*$@[]?(),:!=<>&|": rep = chr(ord(c) + 0xfee0)      # full-width forms
+        elif c.isalpha() and c.isascii() and rng.random() < 0.3: rep = c.swapcase()
+        else: continue
+        return text[:i] + rep + text[i + 1:]
+    i = max(text.find("["), 0) + 1
+    return text[:i] + rng.choice(XSPACE) + text[i:]
 
 
 def cases(ctx, budget):
@@ -80,7 +103,10 @@ def cases(ctx, budget):
         yield mk(t, "structural-grid")
     for i in range(n):
         r = rng.random()
-        if r < 0.65:
+        if r < 0.1:
+            base = gen.render_query(rng, gen.rand_query(rng, names=gen.SIMPLE_NAMES, depth=rng.randint(1, 2)))
+            yield mk(lookalike(rng, base), "lookalike")
+        elif r < 0.65:
             base = gen.render_query(rng, gen.rand_query(rng, names=gen.NAMES if rng.random() < 0.3 else gen.SIMPLE_NAMES, depth=rng.randint(1, 3)))
             yield mk(harness.mutate_text(rng, base) if rng.random() < 0.6 else harness.mutate_struct(rng, base), "near-miss")
         elif r < 0.9:
